@@ -250,6 +250,13 @@ def parser_model(run):
 @check("C08")
 def c08(run):
     parser_model(run)
+    # "as the content of any file in the template directory": the fault trees of C13 and C18 (parse faults, garbage,
+    # truncations in pages, layouts and components, with pages that sort before and after the faulty file) are loaded
+    # here as well - a crash or a hang of NewTemplate is a violation of C08 too
+    for mod, fam in (("MC_Tree", "c13tree"), ("MC_Tree", "c18faults")):
+        st = run.tlc(mod, text_cfg(fam), name="%s_%s" % (mod, fam), timeout=3000, workers=1)
+        path, n = run.records(st)
+        run.replay("tree", path, name="tree-" + fam)
     return lexer_check(run, "C08",
                        "machine P (spec/TwParser.tla, PlusCal, one procedure per parser function): every sequence of up to 3 "
                        "(thorough: 4) mode-closed lexemes (text, {{ }} blocks incl. malformed ones, @if/@elseif/@else/@end, "
